@@ -7,6 +7,7 @@ import KikiVerif.Proofs.Assemble
 import KikiVerif.Proofs.Run
 import KikiVerif.Proofs.Tight
 import KikiVerif.Model.Driver
+import KikiVerif.LR.Halt
 
 set_option linter.unusedSimpArgs false
 set_option linter.unusedVariables false
@@ -213,6 +214,39 @@ theorem emitted_parser_first_offending {P : Type} [Inhabited P] (ok : CtxOK c) {
     exact hrun
   obtain ⟨hsteps, herr⟩ := steps_of_runCfg fuel' _ _ _ hrun'
   exact first_offending hs hc hcs hne (Valid.productiveB_sound hp) hsteps herr
+
+/-- **termination of the emitted parser, per certified table**: if the termination certificate of `LR/Halt`
+checks for the emitted table (a potential under which every reduction lowers `cc·height + φ`), the emitted parse
+loop stops on *every* token sequence within `stepBound` (linear in its length) steps, without panicking, and
+returns `Ok` iff the sequence is a sentence.  (`fm` only fills the FIRST field of the certificate, which the
+check does not read.) -/
+theorem emitted_parser_decides {P : Type} (ok : CtxOK c) {fuel : Nat} (hm : machineOf c fuel = some (some m))
+    (ht : machineToTable c m = .ok t) (fm : List FirstSet)
+    (hcert : Halt.certified (certOf c fm m t) c.g = true) (w : List (Tok Nat P)) :
+    ∃ r cf, runCfg c.g (Driver.autoOfTable t) (Halt.stepBound (certOf c fm m t) c.g w.length)
+        ⟨[(Driver.autoOfTable t).start], [], w⟩ = some (r, cf) ∧
+      r ≠ .panic ∧ ((∃ tr, r = .ok tr) ↔ ∃ tr : Tree Nat P, WF c.g tr (.n c.g.start) ∧ tr.yield = w) := by
+  have cells := machineToTable_cells ht
+  obtain ⟨⟨r, cf⟩, hr⟩ := Halt.certified_halts hcert w
+  have hrun : runCfg c.g (Driver.autoOfTable t) (Halt.stepBound (certOf c fm m t) c.g w.length)
+      ⟨[(Driver.autoOfTable t).start], [], w⟩ = some (r, cf) := by
+    rw [runCfg_congr (fun cfg => step_eq (fm := fm) cells cfg), ← (auto_eq (fm := fm) cells).2.2]
+    exact hr
+  exact ⟨r, cf, hrun, emitted_parser_correct ok hm ht w _ r cf hrun⟩
+
+/-- the same with the sharper certificate (`Halt.certifiedF`: framed simulation of every reduce run): the emitted
+parse loop stops on every token sequence, never panics, and answers `Ok` iff the sequence is a sentence -/
+theorem emitted_parser_decidesF {P : Type} (ok : CtxOK c) {fuel : Nat} (hm : machineOf c fuel = some (some m))
+    (ht : machineToTable c m = .ok t) (fm : List FirstSet)
+    (hcert : Halt.certifiedF (certOf c fm m t) c.g = true) (w : List (Tok Nat P)) :
+    ∃ fuel' r cf, runCfg c.g (Driver.autoOfTable t) fuel' ⟨[(Driver.autoOfTable t).start], [], w⟩ = some (r, cf) ∧
+      r ≠ .panic ∧ ((∃ tr, r = .ok tr) ↔ ∃ tr : Tree Nat P, WF c.g tr (.n c.g.start) ∧ tr.yield = w) := by
+  have cells := machineToTable_cells ht
+  obtain ⟨fuel', ⟨r, cf⟩, hr⟩ := Halt.certifiedF_halts hcert w
+  have hrun : runCfg c.g (Driver.autoOfTable t) fuel' ⟨[(Driver.autoOfTable t).start], [], w⟩ = some (r, cf) := by
+    rw [runCfg_congr (fun cfg => step_eq (fm := fm) cells cfg), ← (auto_eq (fm := fm) cells).2.2]
+    exact hr
+  exact ⟨fuel', r, cf, hrun, emitted_parser_correct ok hm ht w _ r cf hrun⟩
 
 end Universal
 end KikiVerif
